@@ -72,7 +72,13 @@ func conflictSet(i int64, seed int64) []file {
 	r := prng.For(seed, "C05", "conflict", i)
 	pick := func(xs ...string) string { return xs[r.Intn(len(xs))] }
 	var fs []file
-	switch i % 16 {
+	switch i % 17 {
+	case 16: // one identity defined by two or three loaded revisions of a module and derived from an identity of another module: entries of one list that differ in nothing but the revision (nothing else is wrong with the set, so that the trees are compared)
+		fs = append(fs, file{"idb.yang", "module idb { namespace \"urn:idb\"; prefix idb; identity base; identity mid { base base; } leaf r { type identityref { base base; } } leaf rm { type identityref { base mid; } } }"})
+		for k, d := range []string{"2019-01-01", "2020-01-01", "2021-01-01"}[:2+r.Intn(2)] {
+			fs = append(fs, file{fmt.Sprintf("two%d.yang", k), fmt.Sprintf("module two { namespace \"urn:two\"; prefix two; import idb { prefix b; } revision %s; identity foo { base b:%s; } identity bar { base foo; } container t { leaf l%d { type string; } } }", d, pick("base", "mid"), k)})
+		}
+		fs = append(fs, file{"user.yang", "module user { namespace \"urn:user\"; prefix user; import two { prefix t; " + pick("", "revision-date 2019-01-01;") + " } import idb { prefix b; } identity mine { base t:foo; } leaf u { type identityref { base b:base; } } }"})
 	case 15: // two submodules of one module that define an identity (and a typedef, a grouping) of one name; or two revisions of a submodule of which the module includes one, by date or not
 		if r.Intn(2) == 0 {
 			fs = append(fs, file{"sm.yang", "module sm { namespace \"urn:sm\"; prefix sm; include sa; include sb; identity derived { base kind; } leaf ref { type identityref { base kind; } } }"})
